@@ -464,4 +464,10 @@ def run(chk):
     # macro/runtime boundary: what the expansion passes at each named hook parameter (read off emit_macros' quote! templates)
     from . import quotes
     quotes.boundary_rule(chk, P, "C16", {"__private_format", "__private_emit", "__private_evt"}, 4)
+    if not getattr(chk, "_overlay", None):
+        def macro_props_get():
+            from . import c02
+            b = P.impl_method("emit_core::props::Props", "emit::macro_hooks::__PrivateMacroProps<'a, N>", "get")
+            return c02.macro_get(P, b)
+        chk.ob("C16.R2:MacroProps-get", "a hole's value is looked up in a macro-built collection past empty optional entries (the same entry enumeration yields)", macro_props_get)
     return chk
